@@ -119,6 +119,12 @@ def cases(ctx):
         if i % N == S:
             yield {"k": "nest", "depth": d, "else": False}
             yield {"k": "nest", "depth": d, "else": True}
+    # the same towers with some of the closers missing (never-closed conditionals must be rejected at every depth)
+    ud = [1, 2, 3, 10, 100, 1000, 1025, 2049, 2100, 3000, 4097, 5000, 8193, 10000]
+    for i, d in enumerate(ud):
+        if (i + 5) % N == S:
+            for m in sorted(set([1, max(1, d // 2), max(1, d - 1024), max(1, d - 2048), max(1, d - 4096), d])):
+                yield {"k": "nest", "depth": d, "else": bool(m & 1), "missing": m}
     # grammar scripts + mutations
     n = (5000 if thorough else 120)
     for i in range(n):
@@ -341,7 +347,8 @@ def judge(ctx, case):
         d = case["depth"]
         ctx.hit("nest")
         ctx.nontrivial()
-        sc = (b"\x63" * d) + (b"\x51" if d else b"") + ((b"\x67\x68" if case["else"] else b"\x68") * d)
+        miss = case.get("missing", 0)
+        sc = (b"\x63" * d) + (b"\x51" if d else b"") + ((b"\x67\x68" if case["else"] else b"\x68") * (d - miss))
         # dedicated driver process: an abort here is attributed to this probe alone
         from .. import driver as drvmod
 
@@ -353,7 +360,17 @@ def judge(ctx, case):
         ctx.ev()
         ctx.outcomes[drvmod.outcome(r)] += 1
         cls = "<=1000" if d <= 1000 else ">1000"
-        if "ok" in r:
+        if miss:
+            ctx.hit("nest_unclosed")
+            if "ok" in r:
+                ctx.viol("script with never-closed conditionals accepted (nesting depth class %s, %s)" % (cls, "all but a few closed" if miss < d else "none closed"), {"depth": d, "missing": miss, "out": r["ok"]["bytes"][:100]})
+            elif "death" in r:
+                ctx.viol("deep_nesting depth_class=%s outcome=process_death" % cls, {"depth": d, "death": r["death"]})
+            elif "err" not in r:
+                ctx.viol("deep_nesting depth_class=%s outcome=%s" % (cls, drvmod.outcome(r)), {"depth": d})
+            else:
+                ctx.hit("nest_unclosed_rejected")
+        elif "ok" in r:
             ctx.hit("nest_ok")
             if r["ok"]["bytes"] != sc.hex():
                 ctx.viol("nested conditional script re-serialises differently", {"depth": d})
